@@ -85,6 +85,21 @@ def unaryBody (raised overCap : Bool) : Carried :=
     (if unaryBudgetOnlyOnSuccess then .implError else if overCap then .capError else .implError)
   else if overCap then .capError else .result
 
+/-! ## Which exception classes become an error batch on the socket family
+
+The Engine writes `.err e` for EVERY exception an implementation raises.  That is the code's behaviour exactly when no
+handler intercepts a class ahead of the `except Exception` that writes the error batch (extracted per site). -/
+
+inductive SocketSite where
+  | unary | init | step
+deriving Repr, DecidableEq
+
+/-- does an exception of an arbitrary class raised by the implementation at this site get its error batch written? -/
+def socketWritesError : SocketSite → Bool
+  | .unary => socketUnaryCatchesAll
+  | .init => socketInitCatchesAll
+  | .step => socketStepCatchesAll
+
 /-! ## One `process()` call at operation level (`OutputCollector`, rpc/_types.py)
 
 A step may emit its data batch, log and fail in ANY order.  The collector keeps one ordered batch list and the index of
